@@ -1984,10 +1984,13 @@ class collect(Stream):
     def flush(self, _=None):
         out = tuple(self.cache)
         metadata = list(self.metadata_cache)
-        self._emit(out, metadata)
-        self._release_refs(metadata)
+        # empty the caches before the collection is handed on: an element
+        # that arrives while it is being delivered (a feedback edge) belongs
+        # to the next collection, it must not be wiped afterwards
         self.cache.clear()
         self.metadata_cache.clear()
+        self._emit(out, metadata)
+        self._release_refs(metadata)
 
 
 @Stream.register_api()
